@@ -533,3 +533,18 @@ ROUND6 = {
 }
 for _k, _v in ROUND6.items():
     CHECKS[_k]["rule"] += " Round 6: " + _v
+
+# Round 7 (fourth hunt, DESIGN 8.9): what each rule gained.
+ROUND7 = {
+    "C01": "an empty continuation line behind a folded value (OWS in front of a trailing fold); a declared trailer field sent on two field lines (both values reach the handler, as two entries or combined).",
+    "C04": "a stream of another length set under the initial 200 before a bodiless pre-status (EarlierStream); the chunked writer is crossed with every method and status (HEAD, 1xx, 204, 304 included: an exclusion of earlier rounds was withdrawn); known finding D154 for HEAD + Response.Reset() + chunked writer.",
+    "C09": "unit hijack-after-panic: a handler registers a hijack handler and panics, the next connection's requests are ordinary ones; wiring-setters also assigns ctx.HTMLRender and calls Request.SetIsTLS, which must be back in place for the next request (D60 is the three engine-owned mutators).",
+    "C10": "unit helper-late-write: GetTimeout / GetDeadline with a caller-owned dst against a peer that answers after the deadline: dst is not written after the call returned.",
+    "C11": "an application retry policy (RetryIfFunc) with multipart requests whose parts are readers; exchanges where the caller sets Response.SkipBody (the next exchange on the host must not read the leftover); until-close responses that offer an upgrade.",
+    "C14": "chunk extensions behind tabs and blanks.",
+    "C15": "json:\"-\" as the only tag of a field with a default; json bodies whose keys are spelled in another case than the json names; json names that contain a '.', with nested decoy objects under the part before the dot.",
+    "C17": "nameless cookies whose value contains '='.",
+    "C20": "unit containers (race build): values over ten container positions at once (optional nested struct at the top level, in slice elements, behind pointers in a slice, in map values; a one-pointer struct by value in a map, a one-element array, behind an interface, in a []interface{}; []interface{} fields referenced by their own rule), verdict = conjunction of the leaf rules over the leaves that exist, no panic, the judged value unchanged, two validations at once agree; binder-nested: embedded non-struct type, unexported field, struct map key, linked lists through a pointer member (known finding D152 beyond the registration-time depth).",
+}
+for _k, _v in ROUND7.items():
+    CHECKS[_k]["rule"] += " Round 7: " + _v
